@@ -306,9 +306,10 @@ func runC20(w *mc.Worker) {
 		{"a": {"USD": bi(5)}, "b": {"USD": bi(2)}, "x": {"USD": bi(0)}},
 		{"a": {"USD": bi(0)}, "b": {"USD": bi(0)}},
 		{"a": {"USD": new(big.Int).Mul(H, bi(3)), "EUR": bi(7)}, "b": {"USD": bi(-2)}},
+		{"a": {"USD": bi(-1)}, "b": {"USD": bi(1)}, "x": {"USD": bi(-5)}},
 	}
 	name2 := fmt.Sprintf("run-seq-L%d", maxLen)
-	w.Stage(name2, fmt.Sprintf("`numscript run` on all statement sequences of length <= %d over the 35-statement alphabet x 3 sheets (incl. > 2^64 and negative balances) x 3 channels", maxLen), func() {
+	w.Stage(name2, fmt.Sprintf("`numscript run` on all statement sequences of length <= %d over the 35-statement alphabet x 4 sheets (incl. > 2^64 and negative balances) x 3 channels", maxLen), func() {
 		w.Outer(name2+"/seq", 1, func(o *mc.Explorer) {
 			n := 1 + o.Choose(maxLen)
 			prog := &gen.Program{}
@@ -374,7 +375,7 @@ func runC20(w *mc.Worker) {
 					}
 					meta[parts[0]][parts[1]] = alts[c]
 				}
-				si := in.ChooseW(len(sheets), []int{0, 1, 1})
+				si := in.ChooseW(len(sheets), []int{0, 1, 1, 1})
 				runOne(text, vars, sheets[si], meta, true)
 			})
 		})
